@@ -170,17 +170,13 @@ impl Check for C10 {
                         }
                     }
                     Later::DeadTerminal => {
-                        for c in 1..130 {
-                            p.faults.push(FaultSpec {
-                                conn: c,
-                                point: 1 + (c % 4),
-                                kind: FaultKind::Silence,
-                            });
-                        }
+                        // every later connection, for ever, stalls in its handshake
+                        p.pt.dead_from_conn = Some(1);
+                        p.pt.dead_point = 1 + (point % 4);
                     }
                     Later::ConnectHangs => {
                         p.connects = vec![ConnectSpec::Ok];
-                        p.connects.extend(vec![ConnectSpec::Hang; 130]);
+                        p.connects_then = ConnectSpec::Hang;
                     }
                 }
                 p.label = "silence".into();
@@ -194,16 +190,17 @@ impl Check for C10 {
                 let mut p = ClientPlan::plain(wl[(i % 5) as usize].clone());
                 p.cfg.max_tx = 2;
                 let k = (i / 5) as usize;
+                if k == 0 || k == 5 {
+                    p.connects_then = ConnectSpec::Hang;
+                }
                 p.connects = match k {
-                    0 => vec![ConnectSpec::Hang; 130],
+                    0 => vec![ConnectSpec::Hang; 3],
                     1 => vec![ConnectSpec::Hang],
                     2 => vec![ConnectSpec::Refused, ConnectSpec::Hang],
                     3 => vec![ConnectSpec::DelayMs(59_000)],
                     4 => vec![ConnectSpec::DelayMs(30_000), ConnectSpec::Hang, ConnectSpec::Refused],
                     _ => {
-                        let mut v = vec![ConnectSpec::Refused; 10];
-                        v.extend(vec![ConnectSpec::Hang; 120]);
-                        v
+                        vec![ConnectSpec::Refused; 10]
                     }
                 };
                 p.label = "connect_hang".into();
@@ -228,13 +225,13 @@ impl Check for C10 {
             let mut p = ClientPlan::plain(vec![card(0), card(0)]);
             p.cfg.read_card_timeout = i as u8;
             // point 13.. are in op 0 (handshake 4 + configure 8): stall the read-card acknowledgement everywhere
-            for c in 0..130 {
-                p.faults.push(FaultSpec {
-                    conn: c,
-                    point: if c == 0 { 13 } else { 5 },
-                    kind: FaultKind::Silence,
-                });
-            }
+            p.faults.push(FaultSpec {
+                conn: 0,
+                point: 13,
+                kind: FaultKind::Silence,
+            });
+            p.pt.dead_from_conn = Some(1);
+            p.pt.dead_point = 5;
             p.label = "tau_silent".into();
             p
         }));
@@ -348,8 +345,15 @@ fn random_stall_plan(rng: &mut Rng) -> ClientPlan {
     if rng.pct(25) {
         let at = rng.usize_below(4);
         p.connects = vec![ConnectSpec::Ok; at];
-        let n = if rng.pct(50) { 1 } else { 130 };
-        p.connects.extend(vec![ConnectSpec::Hang; n]);
+        if rng.pct(50) {
+            p.connects.push(ConnectSpec::Hang);
+        } else {
+            p.connects_then = ConnectSpec::Hang;
+        }
+    }
+    if rng.pct(25) {
+        p.pt.dead_from_conn = Some(rng.below(4) as u16);
+        p.pt.dead_point = 1 + rng.below(6) as u16;
     }
     p.cfg.read_card_timeout = match rng.below(4) {
         0 => 0,
